@@ -5539,15 +5539,17 @@ evdns_cache_lookup(struct evdns_base *base,
 	EVDNS_LOCK(base);
 	find.name = (char *)nodename;
 	cache = SPLAY_FIND(evdns_tree, &base->cache_root, &find);
+	/* The canonical name, if the answer had one, sits on the first entry
+	 * of the cached list (as in any addrinfo list).  Without it a lookup
+	 * that asks for the name cannot be answered from here. */
+	if (cache && want_cname && (!cache->ai || !cache->ai->ai_canonname))
+		cache = NULL;
 	if (cache) {
 		struct evutil_addrinfo *e = cache->ai, *prev = NULL;
 		log(EVDNS_LOG_DEBUG, "Found cache for %s", cache->name);
 		for (; e; prev = e, e = e->ai_next) {
 			struct evutil_addrinfo *ai_new;
 			struct sockaddr_storage ss;
-			// an existing record might not have the canonname
-			if (want_cname && e->ai_canonname == NULL)
-				continue;
 			/* The cached list has one entry per socket type for
 			 * every address; the hints decide afresh which socket
 			 * types the answer gets. */
@@ -5568,8 +5570,8 @@ evdns_cache_lookup(struct evdns_base *base,
 				n_found = 0;
 				goto out;
 			}
-			if (want_cname) {
-				ai_new->ai_canonname = mm_strdup(e->ai_canonname);
+			if (want_cname && !ai) {
+				ai_new->ai_canonname = mm_strdup(cache->ai->ai_canonname);
 			}
 			ai = evutil_addrinfo_append_(ai, ai_new);
 		}
